@@ -18,12 +18,16 @@ first = parse(os.path.join(ROOT, "notes", "seeded_first_runs.log"))
 final_q = parse(os.path.join(ROOT, "notes", "seeded_final_quick.log"))
 final_t = parse(os.path.join(ROOT, "notes", "seeded_final_thorough.log"))
 rows = []
-for d in sorted(glob.glob(os.path.join(ROOT, "seeded", "C*-*"))):
+def _key(d):
+    m = re.match(r"C(\d+)-(\d+)$", os.path.basename(d))
+    return (int(m.group(1)), int(m.group(2)))
+
+for d in sorted(glob.glob(os.path.join(ROOT, "seeded", "C*-*")), key=_key):
     m = json.load(open(os.path.join(d, "meta.json")))
     sid = m["id"]
     desc = m["description_by_author"].replace("\n", " ")
     desc = re.sub(r"^\s*(Mutant|M)\s*\d+\s*[-:(]*\s*", "", desc)
-    desc = re.sub(r"\s+", " ", desc)[:230].rstrip()
+    desc = re.sub(r"\s+", " ", desc)[:170].rstrip()
     f = first.get(sid)
     q = final_q.get(sid)
     t = final_t.get(sid)
